@@ -89,6 +89,15 @@ func ScopeMiddleware(provider godi.Provider, opts ...Option) func(http.Handler) 
 		opt(cfg)
 	}
 
+	// A handler that an option set to nil is the default one
+	defaults := defaultConfig()
+	if cfg.ErrorHandler == nil {
+		cfg.ErrorHandler = defaults.ErrorHandler
+	}
+	if cfg.CloseErrorHandler == nil {
+		cfg.CloseErrorHandler = defaults.CloseErrorHandler
+	}
+
 	return func(next http.Handler) http.Handler {
 		return http.HandlerFunc(func(w http.ResponseWriter, r *http.Request) {
 			scope, err := provider.CreateScope(r.Context())
@@ -199,6 +208,18 @@ func Handle[T any](method func(T, http.ResponseWriter, *http.Request), opts ...H
 	cfg := defaultHandlerConfig()
 	for _, opt := range opts {
 		opt(cfg)
+	}
+
+	// A handler that an option set to nil is the default one
+	defaults := defaultHandlerConfig()
+	if cfg.PanicHandler == nil {
+		cfg.PanicHandler = defaults.PanicHandler
+	}
+	if cfg.ScopeErrorHandler == nil {
+		cfg.ScopeErrorHandler = defaults.ScopeErrorHandler
+	}
+	if cfg.ResolutionErrorHandler == nil {
+		cfg.ResolutionErrorHandler = defaults.ResolutionErrorHandler
 	}
 
 	return func(w http.ResponseWriter, r *http.Request) {
